@@ -688,6 +688,9 @@ fn test_cbrt() {
 
 // TODO: fix coeffs
 pub fn exp2(d: P32E2) -> P32E2 {
+    if d.is_nar() {
+        return NAR;
+    }
     let q = d.round();
 
     let s = d - q;
